@@ -382,4 +382,306 @@ theorem render_never_unescape_panic (lookup : List Char → Option (List Char)) 
   cases hk : m.kind <;> simp [hk, Kind.panic?] at hm
   all_goals (split at hm <;> simp at hm)
 
+/-- a successful render has the total frame -/
+theorem render_ok_frameT {lookup : List Char → Option (List Char)} {n : Node} {evs : List Event}
+    (h : render lookup n = .ok evs) :
+    ∃ b, bodyOf lookup n = .ok b ∧
+      evs = (frameT lookup n.kind n.attrs (imageAlt n.children)).1 ++ b ++
+            (frameT lookup n.kind n.attrs (imageAlt n.children)).2 := by
+  obtain ⟨p, s, b, hf, hb, rfl⟩ := render_ok_frame h
+  rw [frameOf_eq] at hf
+  split at hf
+  · simp at hf
+  · simp only [Except.ok.injEq] at hf
+    exact ⟨b, hb, by rw [hf]⟩
+
+/-- the induction principle, with the total frame -/
+theorem render_induction (lookup : List Char → Option (List Char))
+    (Q : Node → Prop) (P : List Node → List Event → Prop)
+    (hnil : P [] [])
+    (happ : ∀ v₁ a v₂ b, P v₁ a → P v₂ b → P (v₁ ++ v₂) (a ++ b))
+    (hframe : ∀ (n : Node) (vb : List Node) (b : List Event), Q n → n.kind.panic? = none → P vb b →
+      P (n :: vb) ((frameT lookup n.kind n.attrs (imageAlt n.children)).1 ++ b ++
+                   (frameT lookup n.kind n.attrs (imageAlt n.children)).2))
+    (t : Node) (hq : ∀ m ∈ visited t, Q m) (evs : List Event) (h : render lookup t = .ok evs) :
+    P (visited t) evs := by
+  refine render_ind_node lookup Q P hnil happ ?_ t hq evs h
+  intro n p s vb b hqn hf hp
+  rw [frameOf_eq] at hf
+  split at hf
+  · simp at hf
+  · rename_i hk
+    simp only [Except.ok.injEq] at hf
+    have := hframe n vb b hqn hk hp
+    rw [hf] at this
+    exact this
+
+/-! ## 5. `render_no_raw`, `html_nodes_are_the_only_raw` -/
+
+/-- no rendered node comes from the raw-HTML plugin -/
+def HtmlFree (t : Node) : Prop := ∀ m ∈ visited t, m.kind.isHtml = false
+
+instance (t : Node) : Decidable (HtmlFree t) := by unfold HtmlFree; infer_instance
+
+/-- the payloads of the `text_raw` calls, in order -/
+def rawsOf : List Event → List (List Char)
+  | [] => []
+  | .raw s :: r => s :: rawsOf r
+  | _ :: r => rawsOf r
+
+/-- what an html node hands to `text_raw` -/
+def Kind.htmlContent? : Kind → Option (List Char)
+  | .htmlBlock c => some c
+  | .htmlInline c => some c
+  | _ => none
+
+theorem rawsOf_append (a b : List Event) : rawsOf (a ++ b) = rawsOf a ++ rawsOf b := by
+  induction a with
+  | nil => rfl
+  | cons e r ih => cases e <;> simp [rawsOf, ih]
+
+theorem mem_rawsOf (evs : List Event) (s : List Char) : s ∈ rawsOf evs ↔ Event.raw s ∈ evs := by
+  induction evs with
+  | nil => simp [rawsOf]
+  | cons e r ih => cases e <;> simp [rawsOf, ih]
+
+theorem frameT_raws (lookup : List Char → Option (List Char)) (k : Kind)
+    (attrs : List (List Char × List Char)) (alt : List Char) :
+    rawsOf (frameT lookup k attrs alt).1 = k.htmlContent?.toList ∧
+    rawsOf (frameT lookup k attrs alt).2 = [] := by
+  cases k <;> simp [frameT, rawsOf, Kind.htmlContent?]
+
+/-- **`html_nodes_are_the_only_raw`.** The `text_raw` calls of a rendering are, in order and with
+    their payloads, exactly the contents of the `HtmlBlock` / `HtmlInline` nodes that get rendered
+    (an html node under an `Image` is not rendered and contributes nothing; an html node with empty
+    content still issues its — empty — call). -/
+theorem html_nodes_are_the_only_raw (lookup : List Char → Option (List Char)) (t : Node)
+    (evs : List Event) (h : render lookup t = .ok evs) :
+    rawsOf evs = (visited t).filterMap (fun m => m.kind.htmlContent?) := by
+  refine render_induction lookup (fun _ => True)
+    (fun v e => rawsOf e = v.filterMap (fun m => m.kind.htmlContent?)) rfl ?_ ?_ t (fun _ _ => trivial) evs h
+  · intro v₁ a v₂ b h₁ h₂
+    rw [rawsOf_append, List.filterMap_append, h₁, h₂]
+  · intro n vb b _ _ hb
+    have := frameT_raws lookup n.kind n.attrs (imageAlt n.children)
+    rw [rawsOf_append, rawsOf_append, this.1, this.2, hb, List.filterMap_cons]
+    cases n.kind.htmlContent? <;> simp
+
+theorem Kind.isHtml_iff (k : Kind) : k.isHtml = true ↔ ∃ c, k.htmlContent? = some c := by
+  cases k <;> simp [Kind.isHtml, Kind.htmlContent?]
+
+/-- a `text_raw` call occurs iff an html node is rendered -/
+theorem raw_iff_html (lookup : List Char → Option (List Char)) (t : Node) (evs : List Event)
+    (h : render lookup t = .ok evs) :
+    (∃ s, Event.raw s ∈ evs) ↔ ∃ m ∈ visited t, m.kind.isHtml = true := by
+  have hr := html_nodes_are_the_only_raw lookup t evs h
+  constructor
+  · rintro ⟨s, hs⟩
+    rw [← mem_rawsOf, hr, List.mem_filterMap] at hs
+    obtain ⟨m, hm, hc⟩ := hs
+    exact ⟨m, hm, (Kind.isHtml_iff _).mpr ⟨s, hc⟩⟩
+  · rintro ⟨m, hm, hk⟩
+    obtain ⟨c, hc⟩ := (Kind.isHtml_iff _).mp hk
+    refine ⟨c, ?_⟩
+    rw [← mem_rawsOf, hr, List.mem_filterMap]
+    exact ⟨m, hm, hc⟩
+
+/-- **`render_no_raw`.** Without html nodes no `Event.raw` is issued. -/
+theorem render_no_raw (lookup : List Char → Option (List Char)) (t : Node) (hf : HtmlFree t)
+    (evs : List Event) (h : render lookup t = .ok evs) : ∀ s, Event.raw s ∉ evs := by
+  intro s hs
+  obtain ⟨m, hm, hk⟩ := (raw_iff_html lookup t evs h).mp ⟨s, hs⟩
+  rw [hf m hm] at hk
+  exact absurd hk (by simp)
+
+/-! ## 6. `render_vocab` -/
+
+def shippedTags : List (List Char) :=
+  [tP, tBlockquote, tUl, tOl, tLi, tPre, tCode, tH1, tH2, tH3, tH4, tH5, tH6, tHr, tEm, tStrong, tS,
+   tA, tImg, tBr]
+
+/-- the attribute names each element may carry: what its `render` pushes, plus `data-sourcepos`
+    where the Rust passes `node.attrs` (`pre` and `br` get `&[]`) -/
+def attrsFor (t : List Char) : List (List Char) :=
+  if t = tOl then [aStart, aSourcepos]
+  else if t = tCode then [aClass, aSourcepos]
+  else if t = tA then [aHref, aTitle, aSourcepos]
+  else if t = tImg then [aSrc, aAlt, aTitle, aSourcepos]
+  else if t = tPre ∨ t = tBr then []
+  else [aSourcepos]
+
+def allAttrNames : List (List Char) := [aStart, aClass, aHref, aTitle, aSrc, aAlt, aSourcepos]
+
+theorem attrsFor_subset (t n : List Char) (h : n ∈ attrsFor t) : n ∈ allAttrNames := by
+  unfold attrsFor at h
+  repeat' split at h
+  all_goals simp only [List.mem_cons, List.not_mem_nil, or_false] at h
+  all_goals first
+    | exact absurd h id
+    | (rcases h with rfl | rfl | rfl | rfl <;> decide)
+    | (rcases h with rfl | rfl | rfl <;> decide)
+    | (rcases h with rfl | rfl <;> decide)
+    | (rcases h with rfl <;> decide)
+
+/-- the fixed table element ↦ allowed attribute names -/
+def shippedVocab : Vocab where
+  tag t := t ∈ shippedTags
+  attr t n := t ∈ shippedTags ∧ n ∈ attrsFor t
+  tag_ok := by
+    have : ∀ t ∈ shippedTags, NameOK t := by decide
+    exact this
+  attr_ok := by
+    intro t n h
+    have : ∀ n ∈ allAttrNames, NameOK n := by decide
+    exact this n (attrsFor_subset t n h.2)
+
+/-- every `node.attrs` entry of a rendered node was pushed by the `sourcepos` plugin (or there is none) -/
+def AttrsSourcepos (t : Node) : Prop := ∀ m ∈ visited t, ∀ nv ∈ m.attrs, nv.1 = aSourcepos
+
+instance (t : Node) : Decidable (AttrsSourcepos t) := by unfold AttrsSourcepos; infer_instance
+
+theorem eventOK_open (t : List Char) (a : List (List Char × List Char)) (ht : t ∈ shippedTags)
+    (ha : ∀ nv ∈ a, nv.1 ∈ attrsFor t) : EventOK shippedVocab (.open t a) :=
+  ⟨ht, fun nv h => ⟨ht, ha nv h⟩⟩
+
+theorem eventOK_selfClose (t : List Char) (a : List (List Char × List Char)) (ht : t ∈ shippedTags)
+    (ha : ∀ nv ∈ a, nv.1 ∈ attrsFor t) : EventOK shippedVocab (.selfClose t a) :=
+  ⟨ht, fun nv h => ⟨ht, ha nv h⟩⟩
+
+theorem headingTag_mem (tags : List (List Char)) (level : Nat) :
+    headingTag tags level ∈ tH1 :: tags := by
+  unfold headingTag
+  rw [List.getD_eq_getElem?_getD]
+  cases h : tags[level - 1]? with
+  | none => simp
+  | some t => simp [List.mem_of_getElem? h]
+
+theorem heading_tags_ok : ∀ t ∈ tH1 :: (atxTags ++ setextTags),
+    t ∈ shippedTags ∧ aSourcepos ∈ attrsFor t := by decide
+
+theorem headingTag_atx_ok (level : Nat) :
+    headingTag atxTags level ∈ shippedTags ∧ aSourcepos ∈ attrsFor (headingTag atxTags level) := by
+  apply heading_tags_ok
+  have := headingTag_mem atxTags level
+  simp only [List.mem_cons, List.mem_append] at this ⊢
+  rcases this with h | h
+  · exact .inl h
+  · exact .inr (.inl h)
+
+theorem headingTag_setext_ok (level : Nat) :
+    headingTag setextTags level ∈ shippedTags ∧
+      aSourcepos ∈ attrsFor (headingTag setextTags level) := by
+  apply heading_tags_ok
+  have := headingTag_mem setextTags level
+  simp only [List.mem_cons, List.mem_append] at this ⊢
+  rcases this with h | h
+  · exact .inl h
+  · exact .inr (.inr h)
+
+/-- attribute lists built from `node.attrs` by pushing literal names -/
+theorem names_sp {attrs : List (List Char × List Char)} (ha : ∀ nv ∈ attrs, nv.1 = aSourcepos)
+    {t : List Char} (ht : aSourcepos ∈ attrsFor t) : ∀ nv ∈ attrs, nv.1 ∈ attrsFor t := by
+  intro nv h; rw [ha nv h]; exact ht
+
+theorem names_push {attrs : List (List Char × List Char)} {allowed : List (List Char)}
+    (h : ∀ nv ∈ attrs, nv.1 ∈ allowed) (n v : List Char) (hn : n ∈ allowed) :
+    ∀ nv ∈ attrs ++ [(n, v)], nv.1 ∈ allowed := by
+  intro nv hnv
+  rcases List.mem_append.mp hnv with h' | h'
+  · exact h nv h'
+  · simp only [List.mem_singleton] at h'; subst h'; exact hn
+
+theorem names_pushTitle {attrs : List (List Char × List Char)} {allowed : List (List Char)}
+    (h : ∀ nv ∈ attrs, nv.1 ∈ allowed) (title : Option (List Char)) (hn : aTitle ∈ allowed) :
+    ∀ nv ∈ pushTitle attrs title, nv.1 ∈ allowed := by
+  cases title with
+  | none => exact h
+  | some t => exact names_push h _ _ hn
+
+theorem frameT_vocab (lookup : List Char → Option (List Char)) (k : Kind)
+    (attrs : List (List Char × List Char)) (alt : List Char) (hk : k.isHtml = false)
+    (ha : ∀ nv ∈ attrs, nv.1 = aSourcepos) :
+    ∀ e ∈ (frameT lookup k attrs alt).1 ++ (frameT lookup k attrs alt).2,
+      EventOK shippedVocab e := by
+  have hcr : EventOK shippedVocab .cr := trivial
+  have htx : ∀ s, EventOK shippedVocab (.text s) := fun _ => trivial
+  have hcl : ∀ t, t ∈ shippedTags → EventOK shippedVocab (.close t) := fun _ h => h
+  have sp : ∀ t, aSourcepos ∈ attrsFor t → ∀ nv ∈ attrs, nv.1 ∈ attrsFor t := fun _ => names_sp ha
+  intro e he
+  cases k with
+  | htmlBlock c => simp [Kind.isHtml] at hk
+  | htmlInline c => simp [Kind.isHtml] at hk
+  | atx level =>
+    have := headingTag_atx_ok level
+    simp only [frameT, List.mem_append, List.mem_cons, List.not_mem_nil, or_false] at he
+    rcases he with (rfl | rfl) | (rfl | rfl)
+    · exact hcr
+    · exact eventOK_open _ _ this.1 (sp _ this.2)
+    · exact hcl _ this.1
+    · exact hcr
+  | setext level =>
+    have := headingTag_setext_ok level
+    simp only [frameT, List.mem_append, List.mem_cons, List.not_mem_nil, or_false] at he
+    rcases he with (rfl | rfl) | (rfl | rfl)
+    · exact hcr
+    · exact eventOK_open _ _ this.1 (sp _ this.2)
+    · exact hcl _ this.1
+    · exact hcr
+  | codeFence info content lp =>
+    simp only [frameT, List.mem_append, List.mem_cons, List.not_mem_nil, or_false] at he
+    rcases he with (rfl | rfl | rfl | rfl | rfl | rfl | rfl) | he
+    · exact hcr
+    · exact eventOK_open _ _ (by decide) (by simp)
+    · refine eventOK_open _ _ (by decide) ?_
+      unfold fenceAttrsT
+      split
+      · exact sp _ (by decide)
+      · exact names_push (sp _ (by decide)) _ _ (by decide)
+    · exact htx _
+    · exact hcl _ (by decide)
+    · exact hcl _ (by decide)
+    · exact hcr
+    · exact absurd he id
+  | orderedList start =>
+    simp only [frameT, List.mem_append, List.mem_cons, List.not_mem_nil, or_false] at he
+    rcases he with (rfl | rfl | rfl) | (rfl | rfl | rfl)
+    · exact hcr
+    · refine eventOK_open _ _ (by decide) ?_
+      unfold olAttrs
+      split
+      · exact names_push (sp _ (by decide)) _ _ (by decide)
+      · exact sp _ (by decide)
+    · exact hcr
+    · exact hcr
+    · exact hcl _ (by decide)
+    · exact hcr
+  | link url title =>
+    simp only [frameT, List.mem_append, List.mem_cons, List.not_mem_nil, or_false] at he
+    rcases he with rfl | rfl
+    · refine eventOK_open _ _ (by decide) ?_
+      exact names_pushTitle (names_push (sp _ (by decide)) _ _ (by decide)) _ (by decide)
+    · exact hcl _ (by decide)
+  | image url title =>
+    simp only [frameT, List.mem_append, List.mem_cons, List.not_mem_nil, or_false] at he
+    subst he
+    refine eventOK_selfClose _ _ (by decide) ?_
+    exact names_pushTitle
+      (names_push (names_push (sp _ (by decide)) _ _ (by decide)) _ _ (by decide)) _ (by decide)
+  | autolink url =>
+    simp only [frameT, List.mem_append, List.mem_cons, List.not_mem_nil, or_false] at he
+    rcases he with rfl | rfl
+    · exact eventOK_open _ _ (by decide) (names_push (sp _ (by decide)) _ _ (by decide))
+    · exact hcl _ (by decide)
+  | _ =>
+    simp only [frameT, List.mem_append, List.mem_cons, List.not_mem_nil, or_false, false_or] at he
+    first
+      | exact absurd he id
+      | (rcases he with rfl | rfl | rfl | rfl | rfl | rfl | rfl | rfl <;>
+          first
+            | exact hcr | exact htx _ | exact hcl _ (by decide)
+            | exact eventOK_open _ _ (by decide) (sp _ (by decide))
+            | exact eventOK_open _ _ (by decide) (by simp)
+            | exact eventOK_selfClose _ _ (by decide) (sp _ (by decide))
+            | exact eventOK_selfClose _ _ (by decide) (by simp))
+
 end MdIt.NodeRender
